@@ -369,7 +369,7 @@ def main(out_path):
     # ssh_audit.post_process_findings: marker names and the terrapin text
     pp = func_node(t_main, 'post_process_findings')
     strs = sorted({n.value for n in ast.walk(pp) if isinstance(n, ast.Constant) and isinstance(n.value, str)})
-    for s in ('kex-strict-c-v00@openssh.com', 'kex-strict-s-v00@openssh.com', 'chacha20-poly1305', '-cbc', '-cbc@openssh.org', '-cbc@ssh.com', 'rijndael-cbc@lysator.liu.se', '-etm@openssh.com'):
+    for s in ('kex-strict-c-v00@openssh.com', 'kex-strict-s-v00@openssh.com', 'chacha20-poly1305', '-cbc', '-cbc@openssh.org', '-cbc@ssh.com', 'rijndael-cbc@lysator.liu.se', 'des-cbc-ssh1', '-etm@openssh.com'):
         need(s in strs, 'post_process_findings lost the literal %r' % s)
     tw = [s for s in strs if s.startswith('vulnerable to the Terrapin attack')]
     need(len(tw) == 1, 'terrapin warning text')
